@@ -209,16 +209,17 @@ Qed.
 
 (* ---------------------------------------------------------------------------------------------- *)
 (* sentence 3 for printer output: scanner and lexer agree on the text Expression.String() writes *)
-From Verif Require Import model.ExPrinter proofs.ExRoundtrip proofs.ExTokok proofs.ExGlue proofs.ExTreeWf proofs.ExScanPrinted.
+From Verif Require Import model.ExPrinter proofs.ExRoundtrip proofs.ExTokok proofs.ExGlue proofs.ExTreeWf proofs.ExTokName proofs.ExScanPrinted.
 
 Theorem scanner_lexer_agree_printed_stmt : forall (lower : N -> N) (printable : N -> bool) inp ts t,
   printable 10 = false -> valid_codepoints inp ->
-  lex inp = LOk ts -> parse_tokens ts = POk t -> names_ok lower t = true ->
+  lex inp = LOk ts -> parse_tokens ts = POk t -> refs_ok lower t = true ->
   closed_expr (print lower printable t)
   /\ (texts_ok t = true -> lex (print lower printable t) = LOk (ptoks lower printable t)).
 Proof.
-  intros lower printable inp ts t Hnl Hv HL HP Hn.
-  pose proof (parsed_shape inp ts t Hv HL HP) as Hs. split.
+  intros lower printable inp ts t Hnl Hv HL HP Hr.
+  pose proof (parsed_shape inp ts t Hv HL HP) as Hs.
+  pose proof (names_ok_split lower t Hr (parsed_src inp ts t Hv HL HP)) as Hn. split.
   - apply printed_closed; assumption.
   - intros Ht. apply lex_print. apply glue_free_char; assumption.
 Qed.
